@@ -11,5 +11,7 @@ CONSTANTS
   AllowEnd = FALSE
   MaxRequery = 0
   FixCommitState = FALSE
+  SeqSMP = FALSE
+  FixSMPReset = FALSE
 INVARIANTS NoNilKey
 CHECK_DEADLOCK FALSE
